@@ -830,4 +830,112 @@ fn run(ctx: &mut Ctx) {
         };
         prog_meas_case(ctx, &w, &mcals, &m);
     }
+
+    // ---- 5. LARGE sets: 64 / 128 / 256 / 512 definitions in shuffled order, dozens of them matching the same
+    // gate with equal fixed-qubit counts (a lookup that is only right for small sets is wrong here) ----------
+    {
+        let pset = [0usize, 5, 3, 4]; // 1.0, 2.0, %t, %s
+        let qset = [Q::F(0), Q::F(1), Q::V("q"), Q::V("r")];
+        let mut sigs2: Vec<CalSpec> = Vec::new(); // all 256 signatures of G(p, p') q q'
+        for &a in &pset {
+            for &b in &pset {
+                for x in &qset {
+                    for y in &qset {
+                        sigs2.push(cal("G", &[], &[a, b], &[x.clone(), y.clone()]));
+                    }
+                }
+            }
+        }
+        let mut sigs3: Vec<CalSpec> = Vec::new(); // 512: a third qubit from {0, s}
+        for c in &sigs2 {
+            for z in [Q::F(0), Q::V("s")] {
+                let mut d = c.clone();
+                d.qubits.push(z);
+                sigs3.push(d);
+            }
+        }
+        let mut queries2: Vec<GateSpec> = Vec::new();
+        let mut queries3: Vec<GateSpec> = Vec::new();
+        for a in [0usize, 5, 6] {
+            for b in [0usize, 5, 6] {
+                for x in [Q::F(0), Q::F(1), Q::F(2)] {
+                    for y in [Q::F(0), Q::F(1), Q::F(2)] {
+                        queries2.push(gate("G", &[], &[a, b], &[x.clone(), y.clone()]));
+                        queries3.push(gate("G", &[], &[a, b], &[x.clone(), y.clone(), Q::F(0)]));
+                    }
+                }
+            }
+        }
+        let shuffle = |rng: &mut Rng, n: usize| -> Vec<usize> {
+            let mut order: Vec<usize> = (0..n).collect();
+            for i in (1..n).rev() {
+                let j = rng.below(i as u64 + 1) as usize;
+                order.swap(i, j);
+            }
+            order
+        };
+        let n_big = if quick { 120 } else { 4000 };
+        let n_queries = if quick { 10 } else { 27 };
+        for k in 0..n_big {
+            let size = [64usize, 128, 256, 512][k % 4];
+            let (pool, qs) = if size == 512 { (&sigs3, &queries3) } else { (&sigs2, &queries2) };
+            let order = shuffle(&mut rng, pool.len());
+            let defs: Vec<CalSpec> =
+                order[..size].iter().enumerate().map(|(b, &i)| CalSpec { body: b as u64, ..pool[i].clone() }).collect();
+            // queries: mostly the ones with literal parameters 1.0 / 2.0 and qubits 0 / 1 (81 of the 256 signatures match)
+            let queries: Vec<GateSpec> = (0..n_queries)
+                .map(|_| {
+                    let g = rng.pick(qs).clone();
+                    if rng.chance(3, 4) {
+                        let mut g = g;
+                        for p in g.params.iter_mut() {
+                            if *p == 6 {
+                                *p = 0;
+                            }
+                        }
+                        for q in g.qubits.iter_mut().take(2) {
+                            if *q == Q::F(2) {
+                                *q = Q::F(1);
+                            }
+                        }
+                        g
+                    } else {
+                        g
+                    }
+                })
+                .collect();
+            let ops: Vec<Op<CalSpec>> =
+                if size == 64 && k % 8 == 0 { defs.iter().cloned().map(Op::Ins).collect() } else { vec![Op::Ext(defs.clone())] };
+            gate_case(ctx, &w, &ops, &queries);
+            if size <= 256 && k % 3 == 0 {
+                // the same through the parser and Program::expand_calibrations
+                prog_gate_case(ctx, &w, &defs, &queries[0]);
+            }
+        }
+        // large measurement-calibration sets: qubit {0, 1, q, r} x 65 targets (64 names + none)
+        let tnames: Vec<&'static str> = (0..64).map(|i| &*Box::leak(format!("t{i}").into_boxed_str())).collect();
+        let mut msigs: Vec<MCalSpec> = Vec::new();
+        for q in &qset {
+            msigs.push(MCalSpec { name: None, qubit: q.clone(), target: None, body: 0 });
+            for t in &tnames {
+                msigs.push(MCalSpec { name: None, qubit: q.clone(), target: Some(t), body: 0 });
+            }
+        }
+        let mut mqueries = Vec::new();
+        for q in [Q::F(0), Q::F(1), Q::F(2), Q::V("x")] {
+            for target in [None, Some(("ro", 0))] {
+                mqueries.push(MeasSpec { name: None, qubit: q.clone(), target });
+            }
+        }
+        for k in 0..n_big / 2 {
+            let size = [64usize, 128, 260][k % 3];
+            let order = shuffle(&mut rng, msigs.len());
+            let defs: Vec<MCalSpec> =
+                order[..size].iter().enumerate().map(|(b, &i)| MCalSpec { body: b as u64, ..msigs[i].clone() }).collect();
+            meas_case(ctx, &w, &[Op::Ext(defs.clone())], &mqueries);
+            if k % 4 == 0 {
+                prog_meas_case(ctx, &w, &defs, &mqueries[1]);
+            }
+        }
+    }
 }
